@@ -336,6 +336,26 @@ func newRuntimeState(compiled config.Compiled) *runtimeState {
 func (s *runtimeState) updateAll(compiled config.Compiled) {
 	s.mu.Lock()
 	defer s.mu.Unlock()
+	s.updateAllLocked(compiled)
+}
+
+// reload applies a new configuration: authenticators are built first (nothing
+// is changed if a secret cannot be loaded), then routes, limits and
+// authenticators are switched together under one write lock, so no request
+// sees the authenticators of one configuration with the routes of the other.
+func (s *runtimeState) reload(compiled config.Compiled) error {
+	auth, err := buildRuntimeAuth(compiled)
+	if err != nil {
+		return err
+	}
+	s.mu.Lock()
+	defer s.mu.Unlock()
+	s.setAuthLocked(auth)
+	s.updateAllLocked(compiled)
+	return nil
+}
+
+func (s *runtimeState) updateAllLocked(compiled config.Compiled) {
 	s.routes = compiled.Routes
 	s.pathToRoute = compiled.PathToRoute
 	s.trendSignals = compiled.Defaults.TrendSignals
@@ -846,12 +866,46 @@ func queueTrendSignalConfigFromCompiled(in config.TrendSignalsConfig) queue.Back
 	}
 }
 
+// runtimeAuth holds the authenticators built from one compiled configuration.
+type runtimeAuth struct {
+	pullAuthorize   pullapi.Authorizer
+	workerAuthorize workerapi.Authorizer
+	adminAuthorize  admin.Authorizer
+	pullByRoute     map[string]pullapi.Authorizer
+	workerByRoute   map[string]workerapi.Authorizer
+	basicByRoute    map[string]*ingress.BasicAuth
+	forwardByRoute  map[string]*ingress.ForwardAuth
+	hmacByRoute     map[string]*ingress.HMACAuth
+}
+
 func (s *runtimeState) loadAuth(compiled config.Compiled) error {
+	auth, err := buildRuntimeAuth(compiled)
+	if err != nil {
+		return err
+	}
+	s.mu.Lock()
+	s.setAuthLocked(auth)
+	s.mu.Unlock()
+	return nil
+}
+
+func (s *runtimeState) setAuthLocked(auth *runtimeAuth) {
+	s.pullAuthorize = auth.pullAuthorize
+	s.workerAuthorize = auth.workerAuthorize
+	s.adminAuthorize = auth.adminAuthorize
+	s.pullByRoute = auth.pullByRoute
+	s.workerByRoute = auth.workerByRoute
+	s.basicByRoute = auth.basicByRoute
+	s.forwardByRoute = auth.forwardByRoute
+	s.hmacByRoute = auth.hmacByRoute
+}
+
+func buildRuntimeAuth(compiled config.Compiled) (*runtimeAuth, error) {
 	tokens := make([][]byte, 0, len(compiled.PullAPI.AuthTokens))
 	for _, ref := range compiled.PullAPI.AuthTokens {
 		b, err := secrets.LoadRef(ref)
 		if err != nil {
-			return fmt.Errorf("pull_api auth token %q: %w", ref, err)
+			return nil, fmt.Errorf("pull_api auth token %q: %w", ref, err)
 		}
 		tokens = append(tokens, b)
 	}
@@ -860,7 +914,7 @@ func (s *runtimeState) loadAuth(compiled config.Compiled) error {
 	for _, ref := range compiled.AdminAPI.AuthTokens {
 		b, err := secrets.LoadRef(ref)
 		if err != nil {
-			return fmt.Errorf("admin_api auth token %q: %w", ref, err)
+			return nil, fmt.Errorf("admin_api auth token %q: %w", ref, err)
 		}
 		adminTokens = append(adminTokens, b)
 	}
@@ -869,7 +923,7 @@ func (s *runtimeState) loadAuth(compiled config.Compiled) error {
 	for id, sc := range compiled.Secrets {
 		b, err := secrets.LoadRef(sc.ValueRef)
 		if err != nil {
-			return fmt.Errorf("secret %q value %q: %w", id, sc.ValueRef, err)
+			return nil, fmt.Errorf("secret %q value %q: %w", id, sc.ValueRef, err)
 		}
 		secretVersions[id] = secrets.Version{
 			ID:         id,
@@ -889,7 +943,7 @@ func (s *runtimeState) loadAuth(compiled config.Compiled) error {
 		for _, ref := range rt.Pull.AuthTokens {
 			b, err := secrets.LoadRef(ref)
 			if err != nil {
-				return fmt.Errorf("route %q pull auth token %q: %w", rt.Path, ref, err)
+				return nil, fmt.Errorf("route %q pull auth token %q: %w", rt.Path, ref, err)
 			}
 			routeTokens = append(routeTokens, b)
 		}
@@ -930,7 +984,7 @@ func (s *runtimeState) loadAuth(compiled config.Compiled) error {
 		for _, ref := range rt.AuthHMACSecrets {
 			b, err := secrets.LoadRef(ref)
 			if err != nil {
-				return fmt.Errorf("route %q auth hmac secret %q: %w", rt.Path, ref, err)
+				return nil, fmt.Errorf("route %q auth hmac secret %q: %w", rt.Path, ref, err)
 			}
 			secs = append(secs, b)
 		}
@@ -944,7 +998,7 @@ func (s *runtimeState) loadAuth(compiled config.Compiled) error {
 			seenRefs[ref] = struct{}{}
 			v, ok := secretVersions[ref]
 			if !ok {
-				return fmt.Errorf("route %q auth hmac secret_ref %q not found", rt.Path, ref)
+				return nil, fmt.Errorf("route %q auth hmac secret_ref %q not found", rt.Path, ref)
 			}
 			versions = append(versions, v)
 		}
@@ -965,7 +1019,7 @@ func (s *runtimeState) loadAuth(compiled config.Compiled) error {
 		if len(versions) > 0 {
 			set := secrets.Set{Versions: versions}
 			if err := set.Validate(); err != nil {
-				return fmt.Errorf("route %q auth hmac secret_ref invalid: %w", rt.Path, err)
+				return nil, fmt.Errorf("route %q auth hmac secret_ref invalid: %w", rt.Path, err)
 			}
 			auth.SelectSecrets = func(at time.Time) [][]byte {
 				valid := set.ValidAt(at)
@@ -982,17 +1036,16 @@ func (s *runtimeState) loadAuth(compiled config.Compiled) error {
 		hmacByRoute[rt.Path] = auth
 	}
 
-	s.mu.Lock()
-	s.pullAuthorize = pullapi.BearerTokenAuthorizer(tokens)
-	s.workerAuthorize = workerapi.BearerTokenAuthorizer(tokens)
-	s.adminAuthorize = admin.BearerTokenAuthorizer(adminTokens)
-	s.pullByRoute = pullByRoute
-	s.workerByRoute = workerByRoute
-	s.basicByRoute = basicByRoute
-	s.forwardByRoute = forwardByRoute
-	s.hmacByRoute = hmacByRoute
-	s.mu.Unlock()
-	return nil
+	return &runtimeAuth{
+		pullAuthorize:   pullapi.BearerTokenAuthorizer(tokens),
+		workerAuthorize: workerapi.BearerTokenAuthorizer(tokens),
+		adminAuthorize:  admin.BearerTokenAuthorizer(adminTokens),
+		pullByRoute:     pullByRoute,
+		workerByRoute:   workerByRoute,
+		basicByRoute:    basicByRoute,
+		forwardByRoute:  forwardByRoute,
+		hmacByRoute:     hmacByRoute,
+	}, nil
 }
 
 func startBacklogTrendCapture(ctx context.Context, trendStore queue.BacklogTrendStore, logger *slog.Logger) {
@@ -1122,11 +1175,10 @@ func reloadConfig(path string, running config.Compiled, state *runtimeState, log
 		return running, false
 	}
 
-	if err := state.loadAuth(compiled); err != nil {
+	if err := state.reload(compiled); err != nil {
 		logger.Error("config_reload_failed", slog.Any("err", err), slog.String("trigger", trigger))
 		return running, false
 	}
-	state.updateAll(compiled)
 
 	logger.Info("config_reloaded_ok", slog.String("trigger", trigger))
 	return compiled, true
